@@ -91,17 +91,37 @@ def main():
     viol_by_sig = {}
     samples = []
     t0 = time.time()
+    import signal
+
+    class CaseTimeout(BaseException):
+        pass
+
+    def on_alarm(signum, frame):
+        raise CaseTimeout()
+
+    watchdog = pid != "C09"          # C09 guards its own regex calls with the same timer
+    if watchdog:
+        signal.signal(signal.SIGALRM, on_alarm)
     for idx in range(lo, hi, step):
         labels = (seed, pid, idx)
         try:
+            if watchdog:
+                signal.setitimer(signal.ITIMER_REAL, args.get("case_limit", 120))
             case = prop.gen_case(labels, tier_cfg)
             if case is None:
                 n_disc += 1
                 continue
             res = prop.run_case(case)
+        except CaseTimeout:
+            emit({"type": "harness_error", "case_index": idx,
+                  "error": "case %d exceeded the per-case time limit (a hang, e.g. catastrophic regex backtracking inside d42):\n%s" % (idx, traceback.format_exc()[-1500:])})
+            return 2
         except Exception:
             emit({"type": "harness_error", "case_index": idx, "error": traceback.format_exc()})
             return 2
+        finally:
+            if watchdog:
+                signal.setitimer(signal.ITIMER_REAL, 0)
         n_cases += 1
         n_exec += res["executions"]
         if res.get("discarded"):
